@@ -29,8 +29,10 @@ RULE = (
     "the child) before e_k and X is run again without faults (thorough: additionally torn-empty and "
     "three torn-prefix variants of every file write; quick: torn-empty and one torn-prefix in half of the worlds). evaluations = crash points decided; "
     "non-trivial = the crashed run had performed >=1 effect and left >=1 undone; distinct = "
-    "distinct (command, previous effect, next effect, fault kind) boundary classes x distinct "
-    "post-crash world-state digests"
+    "distinct pairs (boundary class = command, fault kind, previous effect, next effect; digest of the "
+    "world state the crash left behind). Worlds also include deleted/renamed pages, a whitelisted "
+    "broken page (db create -f) and, in the thorough tier, a second kill during the rerun for ~15% of "
+    "the crash points"
 )
 ASSUMPTIONS = [
     "the crashed run follows the golden effect sequence up to the crash point (checked per boundary; mismatch = harness error)",
@@ -249,6 +251,9 @@ def execute(case: dict, scratch: str) -> dict:
             classes.add(cls)
             rec.probe("boundary:" + cls)
             rec.probe("nontrivial-boundary", int(0 < plan["k"]))
+            if 0 < plan["k"]:
+                # distinct non-trivial case = (boundary class, world state the crash left behind)
+                rec.nontrivial.append(cls + "@" + rec.states[-1])
             # thorough: for a share of the crash points the rerun is killed as well
             # (at a seeded boundary of ITS effect sequence) before the final rerun
             sc = case.get("second_crash") or []
